@@ -71,6 +71,12 @@ def gen_case(rng: random.Random, tier: str) -> dict:
     kind = rng.choice(["string", "string", "string", "keywords", "tuple", "nested"])
     lhs = " + ".join(rng.sample(["x", "y", "z", "log(y)"], rng.randint(1, 2)))
     parts = [part() for _ in range(rng.randint(1, 3))]
+    if rng.random() < 0.3:
+        # a factor that itself creates missing values (first row of a lag, root/log of a negative number), next to parts
+        # that use the same column as it stands
+        made = rng.choice(["lag(x)", "{x ** 0.5}", "log(x + 0.5)", "lag(z)", "{z ** 0.5}:A", "lag(y):x"])
+        k = rng.randrange(len(parts))
+        parts[k] = made if parts[k] in ("0", "-1", "1 - 1", "0 + x - x") else f"{parts[k]} + {made}"
     if kind == "string":
         spec = {"form": "string", "s": (f"{lhs} ~ " if rng.random() < 0.7 else "") + " | ".join(parts)}
         if "~" not in spec["s"] and len(parts) == 1:
